@@ -184,8 +184,14 @@ class _GlobalRandom:
 
 
 def inner(a, b):
-    if isinstance(a, SArr) and isinstance(b, SArr) and a.ndim == 1 and b.ndim == 1:
-        return npspec.dot(a, b)
+    """np.inner of two d-vectors: SOME finite real number (A-REAL).  Nothing else is assumed about the value (the clauses
+    proved here depend only on the outcome of the comparisons the code makes with it), which keeps the path conditions linear."""
+    if isinstance(a, SArr) and isinstance(b, SArr) and a.ndim == 1 and b.ndim == 1 and a.kind == 'real' and b.kind == 'real':
+        vc = cur()
+        vc.oblige('call-pre[np.inner: equal lengths]', a.shape[0] == b.shape[0])
+        r = SReal(vc.fresh('inner', R))
+        vc.libcall('np.inner', dict(res=r))
+        return r
     raise OutOfSubset('np.inner on %r, %r' % (a, b))
 
 
